@@ -1,6 +1,6 @@
 (* Lemmas about Model/Cbor.v (ABI canonical CBOR): heads, the canonical direction
    (accepted bytes re-encode identically) and the round-trip direction. *)
-From Coq Require Import List NArith ZArith Bool Lia.
+From Coq Require Import List NArith ZArith Bool Lia Permutation.
 From Echo Require Import Base.Bytes Base.Order Model.Cbor Proofs.CborFloatProofs.
 Import ListNotations.
 Open Scope N_scope.
@@ -1428,5 +1428,121 @@ Proof.
   intros Hwf H. unfold decode in H.
   destruct (dec_value (S (length b)) b) as [[v [|x rest]]|e] eqn:E; try discriminate.
   inversion H; subst e. apply (dec_value_no_fuel _ _ Hwf (Nat.lt_succ_diag_r _) E).
+Qed.
+
+(* ================================================================== map entry order *)
+(* ------------------------------------------------------------------ encoding does not depend on map entry order *)
+Lemma bytes_cmp_trans a b c : bytes_cmp a b = Lt -> bytes_cmp b c = Lt -> bytes_cmp a c = Lt.
+Proof. apply (ol_trans _ bytes_order). Qed.
+Lemma bytes_cmp_eq a b : bytes_cmp a b = Eq <-> a = b.
+Proof. apply (ol_eq _ bytes_order). Qed.
+
+Definition ble (a b : bytes) : Prop := bytes_cmp a b <> Gt.
+
+Lemma ble_cases a b : ble a b <-> bytes_cmp a b = Lt \/ a = b.
+Proof.
+  unfold ble. destruct (bytes_cmp a b) eqn:E.
+  - apply bytes_cmp_eq in E. split; auto. intros _. discriminate.
+  - split; auto. intros _. discriminate.
+  - split; [congruence|]. intros [H| ->]; [discriminate|].
+    assert (bytes_cmp b b = Eq) by (apply bytes_cmp_eq; reflexivity). congruence.
+Qed.
+
+Lemma ble_trans a b c : ble a b -> ble b c -> ble a c.
+Proof.
+  rewrite !ble_cases. intros [H1| ->] [H2| ->]; auto. left. eapply bytes_cmp_trans; eauto.
+Qed.
+
+Lemma lt_not_ble a b : bytes_cmp a b = Lt -> ~ ble b a.
+Proof. intros H K. apply K. apply bytes_cmp_lt_gt. exact H. Qed.
+
+Lemma chain_forall_lt {A} (x : bytes * A) (r : list (bytes * A)) :
+  chain (Some (fst x)) (map fst r) -> Forall (fun z => bytes_cmp (fst x) (fst z) = Lt) r.
+Proof.
+  revert x; induction r as [|y r IH]; intros x H; constructor.
+  - destruct H as [H _]. exact H.
+  - destruct H as [Hxy H]. specialize (IH y H). eapply Forall_impl; [|exact IH].
+    intros z Hz. eapply bytes_cmp_trans; eauto.
+Qed.
+
+Lemma lsorted_forall_le {A} (y : bytes * A) (r : list (bytes * A)) :
+  lsorted (y :: r) -> Forall (fun z => ble (fst y) (fst z)) r.
+Proof.
+  revert y; induction r as [|z r IH]; intros y H; constructor.
+  - destruct H as [H _]. exact H.
+  - destruct H as [Hyz H]. specialize (IH z H). eapply Forall_impl; [|exact IH].
+    intros w Hw. eapply ble_trans; eauto.
+Qed.
+
+Lemma lsorted_tail {A} (y : bytes * A) r : lsorted (y :: r) -> lsorted r.
+Proof. destruct r; [auto|]. intros [_ H]. exact H. Qed.
+
+Lemma sorted_perm_unique {A} : forall (s1 s2 : list (bytes * A)),
+  chain None (map fst s1) -> lsorted s2 -> Permutation s1 s2 -> s1 = s2.
+Proof.
+  induction s1 as [|x r1 IH]; intros s2 C L P.
+  - apply Permutation_nil in P. subst. reflexivity.
+  - destruct s2 as [|y r2]; [apply Permutation_sym, Permutation_nil in P; discriminate|].
+    cbn [map chain] in C. destruct C as [_ C].
+    pose proof (chain_forall_lt x r1 C) as Hx. pose proof (lsorted_forall_le y r2 L) as Hy.
+    assert (Exy : x = y).
+    { assert (Hin : In y (x :: r1)) by (eapply Permutation_in; [apply Permutation_sym; exact P|left; reflexivity]).
+      destruct Hin as [E|Hin]; [exact E|].
+      rewrite Forall_forall in Hx. pose proof (Hx _ Hin) as Lt1.
+      assert (Hin2 : In x (y :: r2)) by (eapply Permutation_in; [exact P|left; reflexivity]).
+      destruct Hin2 as [E|Hin2]; [symmetry; exact E|].
+      rewrite Forall_forall in Hy. pose proof (Hy _ Hin2) as Le2.
+      exfalso. exact (lt_not_ble _ _ Lt1 Le2). }
+    subst y. f_equal. apply IH.
+    + destruct r1 as [|z r1']; [exact I|]. cbn [map chain] in *. destruct C as [_ C]. split; auto.
+    + eapply lsorted_tail; eauto.
+    + eapply Permutation_cons_inv; eauto.
+Qed.
+
+Lemma insert_by_perm {A} (x : bytes * A) l : Permutation (x :: l) (insert_by x l).
+Proof.
+  induction l as [|y r IH]; [reflexivity|]. cbn [insert_by]. destruct (bytes_cmp (fst x) (fst y)).
+  - rewrite perm_swap. constructor. exact IH.
+  - reflexivity.
+  - rewrite perm_swap. constructor. exact IH.
+Qed.
+
+Lemma sort_by_perm {A} (l : list (bytes * A)) : Permutation l (sort_by l).
+Proof.
+  induction l as [|x l IH]; [reflexivity|]. unfold sort_by in *. cbn [fold_right].
+  etransitivity; [|apply insert_by_perm]. constructor. exact IH.
+Qed.
+
+Lemma seq_keys_perm {A} (l1 l2 : list (result bytes * A)) :
+  Permutation l1 l2 -> forall k1, seq_keys l1 = Ok k1 -> exists k2, seq_keys l2 = Ok k2 /\ Permutation k1 k2.
+Proof.
+  induction 1 as [|[rk a] l1 l2 P IH|[rk1 a1] [rk2 a2] l|l1 l2 l3 P1 IH1 P2 IH2]; intros k1 H.
+  - exists k1. split; auto.
+  - cbn [seq_keys] in *. apply bind_ok in H as (kb & -> & H). apply bind_ok in H as (r & Er & H). inversion H; subst.
+    destruct (IH _ Er) as (k2 & -> & Pk). exists ((kb, a) :: k2). split; [reflexivity|]. constructor. exact Pk.
+  - cbn [seq_keys] in *. apply bind_ok in H as (kb2 & -> & H). apply bind_ok in H as (r & H1 & H). inversion H; subst.
+    apply bind_ok in H1 as (kb1 & -> & H1). apply bind_ok in H1 as (r' & -> & H1). inversion H1; subst.
+    exists ((kb1, a1) :: (kb2, a2) :: r'). split; [reflexivity|]. apply perm_swap.
+  - destruct (IH1 _ H) as (k2 & E2 & Pk2). destruct (IH2 _ E2) as (k3 & E3 & Pk3).
+    exists k3. split; auto. etransitivity; eauto.
+Qed.
+
+Theorem enc_map_order_free es1 es2 b :
+  Permutation es1 es2 -> enc (VMap es1) = Ok b -> enc (VMap es2) = Ok b.
+Proof.
+  intros P H. cbn [enc] in *. unfold finish_map in *.
+  set (pe := fun kv : value * value => (enc (fst kv), enc (snd kv))) in *.
+  assert (Pp : Permutation (map pe es1) (map pe es2)) by (apply Permutation_map; exact P).
+  apply bind_ok in H as (k1 & E1 & H).
+  destruct (seq_keys_perm _ _ Pp _ E1) as (k2 & E2 & Pk). rewrite E2. cbn [bind].
+  destruct (adjacent_dup (sort_by k1)) eqn:Ed; [discriminate|].
+  assert (Es : sort_by k1 = sort_by k2).
+  { apply sorted_perm_unique.
+    - apply lsorted_chain; auto. apply sort_by_lsorted. destruct (sort_by k1); exact I.
+    - apply sort_by_lsorted.
+    - etransitivity; [apply Permutation_sym, sort_by_perm|]. etransitivity; [exact Pk|apply sort_by_perm]. }
+  rewrite <- Es, Ed.
+  apply bind_ok in H as (body & Eb & H). rewrite Eb. cbn [bind].
+  unfold lenN in *. rewrite <- (Permutation_length Pp). exact H.
 Qed.
 
